@@ -18,6 +18,7 @@ type seedMsg struct {
 	multipart    bool
 	body         []byte // reference body (what Body() must return once the message is accepted)
 	interim      bool   // preceded by 1xx responses
+	trailerStart int    // chunked messages: offset right after the last chunk's "0\r\n" (0 otherwise)
 }
 
 var (
@@ -72,7 +73,8 @@ func extraHeaders(rnd *rand.Rand, w *bytes.Buffer) {
 	}
 }
 
-func writeChunked(rnd *rand.Rand, w *bytes.Buffer, body []byte) {
+// writeChunked returns the offset in w right after the last chunk ("0\r\n"), where the trailer section starts.
+func writeChunked(rnd *rand.Rand, w *bytes.Buffer, body []byte) int {
 	for len(body) > 0 {
 		n := 1 + rnd.Intn(len(body))
 		if rnd.Intn(3) == 0 {
@@ -95,10 +97,12 @@ func writeChunked(rnd *rand.Rand, w *bytes.Buffer, body []byte) {
 		body = body[n:]
 	}
 	w.WriteString("0\r\n")
+	ts := w.Len()
 	for k := rnd.Intn(3); k > 0 && rnd.Intn(2) == 0; k-- {
 		fmt.Fprintf(w, "%s: t%d\r\n", trailerKs[rnd.Intn(len(trailerKs))], rnd.Intn(100))
 	}
 	w.WriteString("\r\n")
+	return ts
 }
 
 func multipartBody(rnd *rand.Rand, boundary string) []byte {
@@ -163,14 +167,14 @@ func genRequest(rnd *rand.Rand) seedMsg {
 		}
 		w.WriteString("\r\n")
 		m.body = randBody(rnd)
-		writeChunked(rnd, &w, m.body)
+		m.trailerStart = writeChunked(rnd, &w, m.body)
 	case "multipart":
 		boundary := []string{"BOUNDARY", "xYz123", "----WebKitFormBoundary7MA4YWxkTrZu0gW"}[rnd.Intn(3)]
 		body := multipartBody(rnd, boundary)
 		fmt.Fprintf(&w, "Content-Type: multipart/form-data; boundary=%s\r\n", boundary)
 		if rnd.Intn(3) == 0 {
 			w.WriteString("Transfer-Encoding: chunked\r\n\r\n")
-			writeChunked(rnd, &w, body)
+			m.trailerStart = writeChunked(rnd, &w, body)
 			m.desc = "req-multipart-chunked"
 		} else {
 			fmt.Fprintf(&w, "Content-Length: %d\r\n\r\n", len(body))
@@ -228,7 +232,7 @@ func genResponse(rnd *rand.Rand) seedMsg {
 	case "chunked":
 		w.WriteString("Transfer-Encoding: chunked\r\n\r\n")
 		m.body = randBody(rnd)
-		writeChunked(rnd, &w, m.body)
+		m.trailerStart = writeChunked(rnd, &w, m.body)
 	case "identity":
 		w.WriteString("\r\n")
 		m.body = randBody(rnd)
